@@ -1267,8 +1267,7 @@ mod rope {
     }
 
     /// Slice [off, off+length) of an owned buffer of `len` bytes.
-    fn r_slice(len: usize, off: usize, length: usize) {
-        const N: usize = 4;
+    fn r_slice<const N: usize>(len: usize, off: usize, length: usize) {
         let bytes: [u8; N] = kani::any();
         let parent = Rc::new(Rope::new(bytes[..len].to_vec()));
         let s = Rope::slice(parent, off, length);
@@ -1370,6 +1369,40 @@ mod rope {
         core::mem::forget(r);
     }
 
+    /// find_byte / len / byte_at on a one-byte window `[off, off+1)` of a two-byte owned buffer,
+    /// written without loops so that a recursion bound of 3 suffices (deeper unwinding of the
+    /// recursive rope functions exhausts CBMC: it cannot see the variant of an `Rc` child).
+    fn r_slice_window(off: usize) {
+        let bytes: [u8; 2] = kani::any();
+        let needle: u8 = kani::any();
+        let r = Rope::Slice { parent: Rc::new(Rope::new(vec![bytes[0], bytes[1]])), offset: off, length: 1 };
+        let inside = bytes[off];
+        assert!(r.len() == 1, "slice length");
+        assert!(r.byte_at(0) == Some(inside), "slice byte_at");
+        assert!(r.byte_at(1).is_none(), "slice byte_at past the end");
+        let want0 = if inside == needle { Some(0) } else { None };
+        assert!(r.find_byte(needle, 0) == want0, "slice find_byte is confined to the window");
+        assert!(r.find_byte(needle, 1).is_none(), "slice find_byte from the end");
+        core::mem::forget(r);
+    }
+
+    /// Concatenation of two one-byte owned buffers, loop-free (recursion bound 3).
+    fn r_concat_pair() {
+        let x: u8 = kani::any();
+        let y: u8 = kani::any();
+        let needle: u8 = kani::any();
+        let r = Rope::concat(Rc::new(Rope::new(vec![x])), Rc::new(Rope::new(vec![y])));
+        assert!(r.len() == 2, "concat length");
+        assert!(r.byte_at(0) == Some(x) && r.byte_at(1) == Some(y), "concat byte_at");
+        assert!(r.byte_at(2).is_none(), "concat byte_at past the end");
+        let want0 = if x == needle { Some(0) } else if y == needle { Some(1) } else { None };
+        let want1 = if y == needle { Some(1) } else { None };
+        assert!(r.find_byte(needle, 0) == want0, "concat find_byte from the start");
+        assert!(r.find_byte(needle, 1) == want1, "concat find_byte from the seam");
+        assert!(r.find_byte(needle, 2).is_none(), "concat find_byte from the end");
+        core::mem::forget(r);
+    }
+
     macro_rules! rope_inst {
         ($name:ident, $unwind:expr, $body:expr) => {
             #[kani::proof]
@@ -1380,12 +1413,22 @@ mod rope {
             }
         };
     }
-    rope_inst!(c12_rope_slice__4_1_2, 8, r_slice(4, 1, 2));
-    rope_inst!(c12_rope_slice__4_0_4, 8, r_slice(4, 0, 4));
-    rope_inst!(c12_rope_slice__4_4_0, 8, r_slice(4, 4, 0));
-    rope_inst!(c12_rope_slice__3_2_2, 8, r_slice(3, 2, 2));
-    rope_inst!(c12_rope_slice__2_3_0, 8, r_slice(2, 3, 0));
-    rope_inst!(c12_rope_slice__3_1_2, 8, r_slice(3, 1, 2));
+    rope_inst!(c12_rope_concat_pair, 3, r_concat_pair());
+    rope_inst!(c12_rope_slice_window__0, 3, r_slice_window(0));
+    rope_inst!(c12_rope_slice_window__1, 3, r_slice_window(1));
+    rope_inst!(c12_rope_slice_small__2_0_1, 5, r_slice::<2>(2, 0, 1));
+    rope_inst!(c12_rope_slice_small__2_1_1, 5, r_slice::<2>(2, 1, 1));
+    rope_inst!(c12_rope_slice_small__2_0_2, 5, r_slice::<2>(2, 0, 2));
+    rope_inst!(c12_rope_slice_small__2_2_0, 5, r_slice::<2>(2, 2, 0));
+    rope_inst!(c12_rope_slice_small__2_1_2, 5, r_slice::<2>(2, 1, 2));
+    rope_inst!(c12_rope_slice_small__3_1_1, 6, r_slice::<3>(3, 1, 1));
+    rope_inst!(c12_rope_slice_small__3_0_2, 6, r_slice::<3>(3, 0, 2));
+    rope_inst!(c12_rope_slice__4_1_2, 8, r_slice::<4>(4, 1, 2));
+    rope_inst!(c12_rope_slice__4_0_4, 8, r_slice::<4>(4, 0, 4));
+    rope_inst!(c12_rope_slice__4_4_0, 8, r_slice::<4>(4, 4, 0));
+    rope_inst!(c12_rope_slice__3_2_2, 8, r_slice::<4>(3, 2, 2));
+    rope_inst!(c12_rope_slice__2_3_0, 8, r_slice::<4>(2, 3, 0));
+    rope_inst!(c12_rope_slice__3_1_2, 8, r_slice::<4>(3, 1, 2));
     rope_inst!(c12_rope_concat__2_3_1_3, 9, r_concat(2, 3, 1, 3));
     rope_inst!(c12_rope_concat__3_3_2_2, 9, r_concat(3, 3, 2, 2));
     rope_inst!(c12_rope_concat__0_2_0_1, 9, r_concat(0, 2, 0, 1));
